@@ -146,12 +146,6 @@ Definition osite_ok (o : osite) : bool :=
   (String.eqb (o_file o) "opendsm/eemeter/models/hourly/model.py" && String.eqb (o_func o) "_get_dst_indices" &&
    String.eqb (o_kind o) "pop" && String.eqb (o_text o) "missing_hour.pop()").
 
-(* as coded, one site is neither (known finding C03-K2): CalTRACKSegmentModel.predict orders the columns of its dot product by
-   list(set(parameters.keys()).intersection(set(design_matrix_granular.keys()))), a set of strings *)
-Definition osite_known (o : osite) : bool :=
-  String.eqb (o_file o) "opendsm/eemeter/models/hourly_caltrack/segmentation.py" &&
-  String.eqb (o_func o) "CalTRACKSegmentModel.predict" && String.eqb (o_kind o) "call".
-
 (* writes to state shared by the whole process.  Why it matters beyond the running process: the numba functions are
    compiled with cache=True and a module-level value read inside them is frozen into the compiled code AND into the
    on-disk JIT cache, so a fit that assigned such a value would decide the results of later processes *)
